@@ -209,3 +209,165 @@ def n_const(e):
     if isinstance(e, ast.UnaryOp) and isinstance(e.op, ast.USub) and isinstance(e.operand, ast.Constant):
         return -e.operand.value
     return None
+
+
+def run_b8(chk, repo):
+    """B8 function alphabet: printing is a right inverse of reading; B9 the printer formats sub-expressions through itself"""
+    import re as _re
+    import sympy
+    from sa import grammar as G
+    B8 = chk.rule('B8', 'every intrinsic function the reader produces is printed as a token of the same grammar rule with '
+                        'all its arguments; functions the reader builds from other functions use printable parts', floor=25)
+    B9 = chk.rule('B9', 'printer methods format sub-expressions through the printer (no str()/f-string of a sympy '
+                        'sub-expression)', floor=5)
+    gdir = G.nonmem_grammar_dir()
+    L = G.load_file(gdir / 'code_record.lark', start='root', keep_all_tokens=True, propagate_positions=True)
+    tbl = G.rule_table(L)
+    tdefs = G.terminal_defs(L)
+    crm = repo.module(f'{NM}.records.code_record')
+    ei = crm.classes.get('ExpressionInterpreter')
+    pr = crm.classes.get('NMTranPrinter')
+    if ei is None or pr is None:
+        raise AnalysisError('ExpressionInterpreter / NMTranPrinter not found')
+    arity = {}
+    for grp, n in (('_fn1', 1), ('_fn2', 2)):
+        for exp in tbl.get(grp, []):
+            for s_ in exp:
+                arity[s_] = n
+    if len(arity) < 20:
+        raise AnalysisError(f'B8: function rules of the grammar not found ({len(arity)})')
+
+    def tokens_of(rule):
+        toks = set()
+        for exp in tbl.get(rule, []):
+            if len(exp) == 1 and exp[0] in tdefs:
+                alts = G.literal_alternatives(L, exp[0])
+                if alts:
+                    toks |= alts
+                else:
+                    rx = tdefs[exp[0]].pattern.to_regexp()
+                    m_ = _re.match(r'\(\?:\(\?i:([A-Za-z0-9]+)\)', rx) or _re.match(r'\(\?i:([A-Za-z0-9]+)\)', rx)
+                    if m_:
+                        toks.add(m_.group(1).upper())
+        return toks
+    all_fn_tokens = {}
+    for r in arity:
+        for t in tokens_of(r):
+            all_fn_tokens[t] = r
+
+    def printed_as(cls):
+        """(token, nargs printed) for an instance of sympy class `cls` according to the printer's methods"""
+        for k in cls.__mro__:
+            m = pr.methods.get(f'_print_{k.__name__}')
+            if m is None:
+                continue
+            if k.__name__ == 'Function':
+                # generic: name = expr.name or CLASSNAME.upper(); prints args[0]
+                nargs = len({unparse(x) for x in ast.walk(m.node) if isinstance(x, ast.Subscript)
+                             and unparse(x.value).endswith('.args')})
+                return cls.__name__.upper(), max(nargs, 1), m
+            js = [n for n in ast.walk(m.node) if isinstance(n, ast.JoinedStr)]
+            for j in js:
+                lit = ''.join(v.value for v in j.values if isinstance(v, ast.Constant))
+                mm = _re.match(r'\s*([A-Za-z0-9]+)\(', lit)
+                if mm:
+                    nargs = sum(1 for v in j.values if isinstance(v, ast.FormattedValue))
+                    return mm.group(1).upper(), nargs, m
+            return None, None, m
+        return None, None, None
+
+    def check_sympy_callable(name, rule, origin):
+        obj = getattr(sympy, name, None)
+        if obj is None:
+            raise AnalysisError(f'B8: sympy has no {name}')
+        if isinstance(obj, type):
+            tok, nargs, m = printed_as(obj)
+            ok_tok = tok is not None and (tok in tokens_of(rule) if rule else tok in all_fn_tokens)
+            want_n = arity.get(rule) if rule else arity.get(all_fn_tokens.get(tok))
+            chk.instance(B8, f'{origin}: sympy.{name} printed as {tok}({nargs} arg) by {m.qualname if m else None}; '
+                             f'rule tokens {sorted(tokens_of(rule)) if rule else "any"}')
+            if not ok_tok:
+                chk.violation(B8, crm.rel, 'NMTranPrinter', f'{origin}: sympy.{name} -> {tok}',
+                              f'`{tok}` is not a function NM-TRAN (and the code grammar) knows'
+                              + (f'; the reader maps {sorted(tokens_of(rule))} to this class' if rule else ''),
+                              line=m.node.lineno if m else None,
+                              witness=f'a statement using {sorted(tokens_of(rule))[0] if rule else origin} that is regenerated '
+                                      f'(any transformation touching it): the generated code does not compile / cannot be '
+                                      f're-read')
+            elif want_n and nargs != want_n:
+                chk.violation(B8, crm.rel, m.qualname, f'{origin}: {tok} printed with {nargs} of {want_n} argument(s)',
+                              'an argument of the function is dropped in the generated code', line=m.node.lineno,
+                              witness='X = MOD(TIME, 24) regenerated as MOD(TIME)')
+        else:
+            # a function returning another class (sqrt -> Pow): evaluate with sympy on a symbol
+            res = obj(sympy.Symbol('x'))
+            tok, nargs, m = printed_as(type(res))
+            chk.instance(B8, f'{origin}: sympy.{name}(x) is a {type(res).__name__}, printed by {m.qualname if m else None}')
+            if m is None or name.upper() not in ''.join(
+                    v.value for j in ast.walk(m.node) if isinstance(j, ast.JoinedStr) for v in j.values
+                    if isinstance(v, ast.Constant)).upper():
+                chk.violation(B8, crm.rel, 'NMTranPrinter', f'{origin}: sympy.{name}',
+                              f'no printer branch writes {name.upper()}(...)', line=pr.node.lineno,
+                              witness=f'{name.upper()}(X) is regenerated in Python syntax')
+    fm = repo.module('pharmpy.internals.expr.funcs')
+    for rule in sorted(arity):
+        h = repo.find_method(ei, rule)
+        if h is None:
+            continue
+        rets = [n.value for n in walk_no_nested(h.node) if isinstance(n, ast.Return) and n.value is not None]
+        if len(rets) != 1:
+            raise AnalysisError(f'B8: handler {rule} has no single return')
+        r = rets[0]
+        if isinstance(r, ast.Attribute) and unparse(r.value) == 'sympy':
+            check_sympy_callable(r.attr, rule, f'rule {rule}')
+        elif isinstance(r, ast.Name):
+            if r.id in fm.classes:
+                # Function subclass printed by the generic method under its class name
+                tok = r.id.upper()
+                ok = tok in tokens_of(rule)
+                chk.instance(B8, f'rule {rule}: class {r.id} printed as {tok}: in rule tokens {ok}')
+                if not ok:
+                    chk.violation(B8, crm.rel, 'NMTranPrinter._print_Function', f'{r.id} -> {tok}',
+                                  'printed name is not a token of the rule', witness=f'{sorted(tokens_of(rule))}')
+            elif r.id in fm.functions:
+                f = fm.functions[r.id]
+                parts = sorted({c.func.attr for c in ast.walk(f.node) if isinstance(c, ast.Call)
+                                and isinstance(c.func, ast.Attribute) and unparse(c.func.value) == 'sympy'})
+                for part in parts:
+                    if part == 'Piecewise':
+                        chk.instance(B8, f'rule {rule}: {r.id} is built from a Piecewise')
+                        chk.violation(B8, fm.rel, r.id, f'{sorted(tokens_of(rule))[0]} -> Piecewise inside an expression',
+                                      'the protected function is represented by a Piecewise; the printer has no form for a '
+                                      'Piecewise that is nested in an expression (only a top-level Piecewise becomes an IF '
+                                      'block)', line=f.node.lineno,
+                                      witness=f'A = 2*{sorted(tokens_of(rule))[0]}(X) regenerated after any change of that '
+                                              f'statement: update_source raises an internal lark error')
+                    else:
+                        check_sympy_callable(part, None, f'{r.id} (rule {rule})')
+            else:
+                raise AnalysisError(f'B8: handler of {rule} returns unknown name {r.id}')
+        else:
+            raise AnalysisError(f'B8: handler of {rule} returns {unparse(r)}')
+    # ---------------------------------------------------------------- B9
+    for name, m in sorted(pr.methods.items()):
+        if not name.startswith('_print_'):
+            continue
+        p0 = m.params[0] if m.params else 'expr'
+        bad = []
+        for j in [n for n in ast.walk(m.node) if isinstance(n, ast.JoinedStr)]:
+            for v in j.values:
+                if isinstance(v, ast.FormattedValue):
+                    e = v.value
+                    # allowed: calls (self.doprint / self._print / super()...), names bound to such calls, plain names
+                    if isinstance(e, (ast.Attribute, ast.Subscript)) and unparse(e).startswith(p0 + '.') \
+                            and not unparse(e).endswith('.name'):
+                        bad.append(unparse(e))
+        for c in [n for n in ast.walk(m.node) if isinstance(n, ast.Call) and dotted(n.func) == 'str']:
+            if c.args and unparse(c.args[0]).startswith(p0 + '.') :
+                bad.append(f'str({unparse(c.args[0])})')
+        chk.instance(B9, f'{m.qualname}: sub-expressions formatted outside the printer: {bad}')
+        for b in bad:
+            chk.violation(B9, crm.rel, m.qualname, b,
+                          'the sub-expression is formatted by sympy\'s default printer, not by the NM-TRAN printer '
+                          '(function names, operators and numbers come out in Python syntax)', line=m.node.lineno,
+                          witness='Y = 1/(A .. Abs(X) ..) or 1/LOG(X): AttributeError or Python-syntax code')
